@@ -263,7 +263,7 @@ def judge_case(doc, via, obs_by_mode, cells):
         counts[k] = counts.get(k, 0) + 1
 
     def fail(mode, why, why_class, **kw):
-        verdicts.append({"kind": "fail", "mode": mode, "why": why, "why_class": why_class, **kw})
+        verdicts.append({"kind": "projection-fail", "mode": mode, "why": why, "why_class": why_class, **kw})
     text = PD.render(doc) if via == "text" else None
     for mode in MODES:
         obs = obs_by_mode[mode]
@@ -345,7 +345,24 @@ def corpus_cases():
     return out
 
 
+def replay_case(ctx):
+    """--replay f: re-execute exactly the document of the replay file (all modes / formats / channels) on the current tree and the model."""
+    try:
+        j = json.loads(open(ctx.replay).read())
+        c = j.get("case") or (j.get("correspondence_disagreements") or [{}])[0].get("case") or {}
+        if "doc" in c:
+            via = c.get("via", "text")
+            return [{"doc": c["doc"], "via": via, "cli": "inproc" if via == "text" else None, "origin": "replay"}]
+    except Exception as e:
+        ctx.notes.append(f"replay file not usable ({e}); running the full check")
+    return None
+
+
 def build_cases(ctx):
+    if ctx.replay:
+        rc = replay_case(ctx)
+        if rc:
+            return rc
     cases = corpus_cases()
     wide = ctx.thorough or ctx.widen > 1
     # exhaustive small scope: every ordered pair (thorough: triple) of node templates
@@ -359,7 +376,7 @@ def build_cases(ctx):
     w = 1 if ctx.thorough else min(ctx.widen, 4)        # a broken tie / changed fingerprint widens the quick search x4
     n_text = 4000 if ctx.thorough else 500 * w
     n_ast = 2000 if ctx.thorough else 250 * w
-    n_sub = 150 if ctx.thorough else (16 if ctx.widen > 1 else 0)
+    n_sub = 150 if ctx.thorough else (16 if ctx.widen > 1 else 4)
     for i in range(n_text):
         feats = PG.CLEAN_FEATS if i % 3 else PG.ALL_FEATS
         d = PG.gen_doc(rng, feats, maxdepth=4 if wide else 3, from_text=True)
@@ -411,7 +428,9 @@ def run(ctx: vlib.Ctx):
     replay_findings(ctx, findings)
 
     cases = build_cases(ctx)
-    results = vlib.pmap(run_case, cases)
+    # expensive cases (real CLI subprocesses) first and small chunks, so that they spread over the workers
+    cases.sort(key=lambda c: 0 if c.get("cli") == "subprocess" else 1)
+    results = vlib.pmap(run_case, cases, chunksize=1 if len(cases) < 400 else 6)
     # Lean model on every (document, mode)
     drv = proj.driver()
     reqs, idx = [], []
@@ -467,7 +486,7 @@ def run(ctx: vlib.Ctx):
             ctx.count(k, n)
         for v in r["verdicts"]:
             base = {"doc": doc, "mode": v["mode"], "via": case["via"]}
-            if v["kind"] == "fail":
+            if v["kind"] == "projection-fail":
                 ctx.failures.append({"case": {**base, "text": v.get("text")}, "why": v["why"], "why_class": v["why_class"],
                                      **{k: v[k] for k in ("expected_projection", "observed_projection") if k in v}})
                 continue
